@@ -289,6 +289,47 @@ fn gen_stmt(rng: &mut Rng) -> St {
     }
 }
 
+/// CREATE-only statement with ONE comma-free path of 1-3 relationships in which a freshly declared variable
+/// recurs at a later position of the same path (cycle, self-loop, mid-path repeat): exactly one node per distinct
+/// variable, relationships between the bound nodes.  (Class of the seeded change C04-d.)
+fn gen_chain_stmt(rng: &mut Rng) -> St {
+    let len = 1 + rng.usize(3);
+    // which variable stands at each position: a repeat of an earlier one with probability 1/2 (at least one repeat)
+    let mut vars: Vec<u32> = vec![1];
+    let mut next = 2u32;
+    for _ in 0..len {
+        if rng.chance(1, 2) {
+            vars.push(vars[rng.usize(vars.len())]);
+        } else {
+            vars.push(next);
+            next += 1;
+        }
+    }
+    if (1..vars.len()).all(|i| !vars[..i].contains(&vars[i])) {
+        let last = vars.len() - 1;
+        vars[last] = vars[rng.usize(last)];
+    }
+    let mut seen: Vec<u32> = vec![];
+    let nodes: Vec<NPat> = vars
+        .iter()
+        .map(|v| {
+            if seen.contains(v) {
+                NPat { var: Some(*v), labels: vec![], props: vec![] }
+            } else {
+                seen.push(*v);
+                NPat { var: Some(*v), labels: if rng.chance(1, 6) { vec![] } else { labels(rng) }, props: vec![(0, int(*v as i64 * 10 + rng.range(0, 3)))] }
+            }
+        })
+        .collect();
+    let rels: Vec<(u32, Vec<(u32, Ex)>, bool)> = (0..len).map(|_| (rng.below(NT as u64) as u32, if rng.chance(1, 2) { vec![(0, int(rng.range(1, 5)))] } else { vec![] }, rng.chance(3, 4))).collect();
+    let ret = match rng.below(3) {
+        0 => None,
+        1 => Some(seen.iter().map(|v| Ex::Prop(*v, 0)).collect()),
+        _ => Some(seen.iter().map(|v| Ex::Var(*v)).collect()),
+    };
+    St { cls: vec![Cl::CreateChain(nodes, rels)], ret }
+}
+
 /// statements that exhibit defects of the engine which are recorded as known findings
 fn gen_known(rng: &mut Rng) -> St {
     match rng.below(4) {
@@ -832,6 +873,22 @@ fn main() {
             let mut stmts = vec![];
             for _ in 0..len {
                 stmts.push(if rng.chance(1, 40) { gen_known(&mut rng) } else { gen_stmt(&mut rng) });
+            }
+            run_sequence(&stmts, &mut cases);
+        }
+        // CREATE paths with a recurring fresh variable, in sequences of their own (with read-backs): the cycles they
+        // build are kept out of the general sequences, where a MATCH-driven DETACH DELETE over a cycle would hit the
+        // engine's streaming of MATCH rows through writes (not generated, see the module notes)
+        let n_chain = if args.thorough() { 2000 } else { 250 };
+        for _ in 0..n_chain {
+            let len = 3 + rng.usize(4);
+            let mut stmts = vec![];
+            for _ in 0..len {
+                stmts.push(match rng.below(6) {
+                    0 => St { cls: vec![Cl::MatchR(1, vec![rng.below(NL as u64) as u32], 2, 999, 3, vec![])], ret: Some(vec![Ex::Prop(1, 0), Ex::Prop(2, 0), Ex::Prop(3, 0)]) },
+                    1 => St { cls: vec![Cl::MatchN(1, vec![rng.below(NL as u64) as u32], vec![])], ret: Some(vec![Ex::Prop(1, 0)]) },
+                    _ => gen_chain_stmt(&mut rng),
+                });
             }
             run_sequence(&stmts, &mut cases);
         }
